@@ -2101,6 +2101,11 @@ func (m *repoManager) findMatch(kvv kvVersions, v dvid.VersionID) (*storage.KeyV
 		case 0:
 			return nil, 0, nil
 		case 1:
+			// The surviving match is not necessarily the last one found: a later parent's
+			// lineage may have superseded or deleted it.
+			for fv := range foundVs {
+				foundKV, foundV = kvv[fv].kv, fv
+			}
 			if foundKV.K == nil {
 				return nil, 0, fmt.Errorf("found nil key in ascending version path for kv: %v", foundKV)
 			}
